@@ -123,10 +123,13 @@ func atoi(s string) int64 {
 
 // ---- object tables ----
 
+type xmssKey = xmss.XMSS
+
 type state struct {
-	xkeys map[string]*xmss.XMSS
-	dkeys map[string]*dilithium.Dilithium
-	lbl   *labelRun
+	xkeys    map[string]*xmss.XMSS
+	dkeys    map[string]*dilithium.Dilithium
+	lbl      *labelRun
+	specKeys map[string]*xmssKey
 	// mutated[i] is set when a call changed one of its input buffers (C14)
 	mutations []string
 }
@@ -168,6 +171,9 @@ func snapStr(x *xmss.XMSS) string {
 func execOp(st *state, line string) string {
 	f := strings.Split(strings.TrimSpace(line), " ")
 	return guard(func() string {
+		if r, ok := execSpecOp(st, f); ok {
+			return r
+		}
 		switch {
 		// ---- mnemonic ----
 		case f[0] == "m.enc" && len(f) == 2:
